@@ -239,15 +239,17 @@ CLAIMED = {
               "premises are PROVED for every indexed corpus - phrase locality for every phrase incl. immediate repetitions "
               "and every position range (View/View_Phrase3.v) - so for every non-empty corpus within the limits and "
               "EVERY operation sequence (ranged tf, phrases, scores, views of views, copies, cache warming) every output "
-              "is the history-free answer. The check runs the "
+              "is the history-free answer. RUNNING EDISMAX (or any dynamic program of queries and selections, Conc/Conc_Dyn.v) "
+              "on any reachable pool returns the history-free edismax and leaves a pool on which every later operation "
+              "still returns its history-free answer (C07_edismax_is_history_free, C07_dynamic_program_is_history_free). "
+              "The check runs the "
               "machine against the real objects op by op on random histories, repeats every query at the end and under "
               "another history, and checks earlier returned arrays are unmodified."),
         design_ref="DESIGN.md 7 (C07)",
         note=COMMON_NOTE + "pickle round trips are mapped to copy in the state machine. The operation type of the machine has term / "
-             "ranged / phrase frequencies, docfreq, positions, BM25 scores, slicing, copies and cache warming; edismax, slop "
-             "searches and custom similarities are NOT operations of the model (they are compositions of the modelled calls "
-             "plus pure arithmetic, resp. the cache-free span search): for them purity is decided only by the check "
-             "(slop on shared views in the extra phase, edismax through C09/C10's repeated frames).",
+             "ranged / phrase frequencies, docfreq, positions, BM25 scores, slicing, copies and cache warming; edismax is covered as a "
+             "dynamic program (above); slop searches and custom similarities are NOT operations of the model: for them purity "
+             "is decided only by the check (slop on shared views in the extra phase).",
         technique="Coq proof (cache invariant by induction over operations, with two explicit premises) + op-sequence correspondence",
     ),
     "C09": dict(
@@ -311,13 +313,19 @@ CLAIMED = {
         text=("Storage state machine (Store/Store.v) with closed theorems (Props/C18.v): a new index file is appended under a "
               "fresh name (number of directory entries) and never overwrites one, the pickle state (metadata, filename) "
               "re-loads exactly the original postings also after further indexes were written to the directory, earlier "
-              "files keep their content. PARTIAL for the OS: real file contents, np.memmap, pickle bytes and a fresh "
+              "files keep their content. PICKLING OF ARRAYS AND VIEWS (Store/Store_View.v, modelling what the real pickle holds: "
+              "rows, lengths, dictionary, the root's postings by value or as metadata + file name, a sliced dict for "
+              "non-avoid_copies views, the caches): for every corpus within the limits, any chain of selections (the array "
+              "itself included), in memory or with a data directory, and every LATER directory state (more indexes, foreign "
+              "files) the loaded object equals the pickled one literally (C18_view_roundtrip, C18_in_memory_roundtrip) and "
+              "answers every query alike (C18_view_answers); the caches that travel with a pickle do not matter "
+              "(C18_pickled_caches_do_not_matter). PARTIAL for the OS: real file contents, np.memmap, pickle bytes and a fresh "
               "interpreter are exercised by the check (histories with several indexes per directory, views incl. stepped "
               "slices, same-process and subprocess round trips), not modelled."),
         design_ref="DESIGN.md 7 (C18)",
-        note=COMMON_NOTE + "Assumes no file of the directory is deleted between writing and unpickling. The theorems are about the "
-             "postings re-loaded from a directory; pickling of VIEWS (rows vector + handle) and of in-memory (data_dir=None) "
-             "arrays is not in Store.v and is decided by the check only.",
+        note=COMMON_NOTE + "Assumes no file of the directory is deleted between writing and unpickling (add-only directory histories, "
+             "no concurrent writers, no foreign file named <k>.dat). Not modelled: pickle bytes, np.memmap, a fresh "
+             "interpreter, the tokenizer (pickled by reference), the doc x term incidence matrix.",
         technique="Coq proof (directory invariant) + history-based differential check incl. fresh interpreters",
     ),
     "C20": dict(
@@ -329,15 +337,22 @@ CLAIMED = {
               "the serial schedule always finishes. Generic form: the two postings premises of C07 (the phrase one in a "
               "per-term mixed form) are explicit; UNCONDITIONAL form (C20_every_interleaving, C20_schedule_eq_serial): for every "
               "non-empty indexed corpus, any pool reached by any history, any concurrent queries and any schedule "
-              "(premises proved in View/View_Phrase3.v, Conc/Conc_Indexed2.v). PARTIAL for the runtime: the real "
+              "(premises proved in View/View_Phrase3.v, Conc/Conc_Indexed2.v). DYNAMIC programs (Conc/Conc_Dyn.v: a thread's next "
+              "query may depend on earlier results and on views the thread itself created, named by reference as in Python) "
+              "incl. EDISMAX as a program in the order of solr.py (scores per term and field, selection of the matching rows, "
+              "phrase phases on that view): in every interleaving every finished thread holds the history-free value, which "
+              "for edismax is Solr/Edismax.v's edismax on the history-free arrays (C20_every_interleaving_dynamic, "
+              "C20_edismax_threads, C20_edismax_program_is_edismax), so C09 / C10 apply to what each thread gets. "
+              "PARTIAL for the runtime: the real "
               "scheduler, preemption inside an action, dict atomicity under the GIL and nogil sections cannot be "
               "exhibited by the model. The check runs 2..16 real threads released "
               "from a barrier at switch intervals down to 1 microsecond against shared arrays and views, compares with "
               "serial execution on fresh pools and with the model under seeded schedules."),
         design_ref="DESIGN.md 7 (C20)",
-        note=COMMON_NOTE + "The model's schedule is unrelated to the real scheduler; atomicity of each action assumed. edismax (named "
-             "in the property) and slop searches are not programs of the model: the real threads do run edismax and compare "
-             "with the serial answers, but no theorem covers them beyond their being compositions of the modelled queries.",
+        note=COMMON_NOTE + "The model's schedule is unrelated to the real scheduler; atomicity of each action assumed. Slop searches, "
+             "custom similarities and position-ranged phrases are not queries of the dynamic-program model; the edismax program "
+             "is compared with the real edismax by the real threads' results only (the model-side comparison of C20 uses "
+             "term / phrase / score programs).",
         technique="Coq proof (per-action invariant + good-value lemma => schedule independence) + threaded differential check",
     ),
     "C15": dict(
